@@ -22,6 +22,7 @@ type baseCockpit struct {
 	w       io.Writer
 	tasks   []*task.Task
 	mu      sync.Mutex
+	spinMu  sync.Mutex
 	spinner *spinner.Spinner
 	charSet int
 	closeCh chan bool
@@ -71,21 +72,32 @@ func (b *baseCockpit) add(t *task.Task) {
 
 func (b *baseCockpit) remove(t *task.Task) {
 	b.mu.Lock()
-	defer b.mu.Unlock()
-
 	for k, v := range b.tasks {
 		if v == t {
 			b.tasks = append(b.tasks[:k], b.tasks[k+1:]...)
+			break
 		}
 	}
+	s := b.spinner
+	b.mu.Unlock()
+
+	// a task that was skipped or failed before its output started was never added: no spinner yet
+	if s == nil {
+		return
+	}
+
+	// the spinner calls back into PreUpdate (which takes b.mu) while holding its own lock, so it
+	// must not be restarted with b.mu held
+	b.spinMu.Lock()
+	defer b.spinMu.Unlock()
 
 	var mark = aurora.Green("✔")
 	if t.Errored {
 		mark = aurora.Red("✗")
 	}
-	b.spinner.FinalMSG = fmt.Sprintf("%s Finished %s in %s\r\n", mark, aurora.Bold(t.Name), t.Duration())
-	b.spinner.Restart()
-	b.spinner.FinalMSG = ""
+	s.FinalMSG = fmt.Sprintf("%s Finished %s in %s\r\n", mark, aurora.Bold(t.Name), t.Duration())
+	s.Restart()
+	s.FinalMSG = ""
 }
 
 func newCockpitOutputWriter(t *task.Task, w io.Writer, close chan bool) *cockpitOutputDecorator {
